@@ -167,7 +167,7 @@ def main():
             tech, note = tech + '; ' + EXTRA[pid][0], note + ' ' + EXTRA[pid][1]
         if pid in EXTRA2:
             note = note + ' ' + EXTRA2[pid]
-        note = note + ' Generic baseline-relative rules over the anchored files (pncstatic/generic.py): unused parameters, read mutable defaults, collapsed element-wise choices, uncalled methods, one-shot iterators, module state, un-adapted sibling statements.'
+        note = note + ' Generic baseline-relative rules over the anchored files (pncstatic/generic.py): unused parameters, read mutable defaults, collapsed element-wise choices, uncalled methods, one-shot iterators, module and class state, truthiness defaults of numeric options, broken swaps, un-adapted sibling statements. Clauses added wave by wave are listed in DESIGN section 4.'
         mod = importlib.import_module('pncstatic.rules.%s' % pid.lower())
         checks.append(dict(
             property_id=pid,
